@@ -1,6 +1,7 @@
 package main
 
 import (
+	"encoding/json"
 	"flag"
 	"fmt"
 	"os"
@@ -21,6 +22,7 @@ func main() {
 	dump := flag.String("dump-paths", "", "debug: print the paths of a function")
 	list := flag.String("list-funcs", "", "debug: list module functions containing substring")
 	version := flag.Bool("version", false, "print version")
+	dumpAnchors := flag.Bool("dump-anchors", false, "maintenance: print the fingerprint file (internal/prog/anchors.json) for the loaded tree")
 	flag.Parse()
 	if *version {
 		fmt.Println("oapsa static analyser for oauth2-proxy properties:", rules.IDs())
@@ -50,6 +52,11 @@ func main() {
 	if err != nil {
 		fmt.Println("load error:", err)
 		os.Exit(1)
+	}
+	if *dumpAnchors {
+		b, _ := json.MarshalIndent(p.Fingerprints(), "", " ")
+		fmt.Println(string(b))
+		return
 	}
 	if *list != "" {
 		for _, fn := range p.ModFns {
@@ -105,6 +112,9 @@ func runProperty(repo, root, id, tier string, seed int, replay string) (code int
 	if err != nil {
 		rep.Unknown("meta", "load", "-", "cannot load/type-check the repository: "+err.Error())
 		return rep.Finish(root)
+	}
+	for _, rn := range p.Renames {
+		rep.Notes = append(rep.Notes, "renamed anchor: "+rn)
 	}
 	if len(p.Outside) > 2 {
 		rep.Unknown("meta", "packages-outside-main", "-", fmt.Sprintf("module packages not imported by main (would escape analysis): %v", p.Outside))
